@@ -6,7 +6,7 @@ from .common import *
 from .detectors import SPECS, gen_case
 
 ID = "C17"
-PROPS = ["Prop_C17", "Prop_C17_adwin", "Prop_C17_lfr", "Prop_C17_nndvi", "Prop_C17_kdq"]
+PROPS = ["Prop_C17", "Prop_C17_adwin", "Prop_C17_lfr", "Prop_C17_nndvi", "Prop_C17_kdq", "Prop_C17_ph_refuted"]
 IMPORTS = c01.IMPORTS + "\nFrom MV Require Import Corr_C17."
 CORR_NAME = "Corr_C17: the models whose monotonicity theorems are proved (DDM, EDDM, STEPD, CUSUM, PageHinkley) and ADWIN / LFR = the implementation, under both settings of every pair"
 TRUSTED = ["Coq 8.16.1 kernel + vm_compute + primitive floats",
@@ -25,7 +25,7 @@ KNOBS = [
     ("ADWIN", "delta", [1.0, 0.5, 0.1, 0.002, 1e-6]),
     ("ADWINAccuracy", "delta", [1.0, 0.5, 0.1, 0.002, 1e-6]),
     ("CUSUM", "threshold", [0.5, 1, 2, 5, 8]),
-    ("PageHinkley", "threshold", [0.05, 0.5, 1, 2, 5, 20]),
+    ("PageHinkley", "threshold", [0.0, 0.05, 0.5, 1, 2, 5, 20]),
     ("DDM", "drift_scale", [0.5, 1.0, 2.0, 2.5, 3, 4]),
     ("EDDM", "drift_thresh", [0.99, 0.95, 0.9, 0.8, 0.6, 0.3]),
     ("STEPD", "alpha_drift", [0.5, 0.2, 0.05, 0.003, 1e-5]),
@@ -156,5 +156,40 @@ def shrink_candidates(case):
     return c01.shrink_candidates(case)
 
 
+def _ph_zero_theta(case):
+    """Page-Hinkley: the looser threshold times a negative running mean is a zero (threshold 0, or underflow)"""
+    if case["det"] != "PageHinkley" or case.get("key") != "threshold":
+        return False
+    mean, n = 0.0, 0
+    for x in case["data"]:
+        n += 1
+        mean = mean + (x - mean) / n
+        if mean < 0 and case["loose"] * mean == 0.0:
+            return True
+    return False
+
+
 def signature(case, obs, msgs):
-    return {"det": case["det"], "key": case["key"]}
+    sig = {"det": case["det"], "key": case["key"]}
+    if _ph_zero_theta(case):
+        sig["finding"] = "PH-zero-theta"
+    return sig
+
+
+PH_WITNESSES = [   # the two witnesses of Prop_C17_ph_refuted.v
+    ("threshold 0 against 1, five samples of -1.0", 0.0, 1.0, [-1.0] * 5),
+    ("subnormal threshold 2^-1063 against 1, five samples of -2^-33", 2.0 ** -1063, 1.0, [-(2.0 ** -33)] * 5),
+]
+
+
+def witnesses(ctx):
+    """recorded finding PH-zero-theta: a Page-Hinkley threshold whose product with a negative running mean is -0.0
+    never alarms on a PH difference of 0, the stricter threshold 1 does (known_findings.json)"""
+    for what, loose, strict, xs in PH_WITNESSES:
+        case = {"det": "PageHinkley", "params": {"delta": 0.0, "threshold": loose, "burn_in": 2, "direction": "positive"},
+                "data": xs, "seed": 0, "kind": "drift", "key": "threshold", "loose": loose, "strict": strict}
+        obs = run_impl(case)
+        msgs = direct_check(case, obs)
+        if msgs:
+            yield ({"det": "PageHinkley", "key": "threshold", "finding": "PH-zero-theta"},
+                   f"PageHinkley(delta=0, burn_in=2), {what}: " + msgs[0], {"case": case, "obs": obs})
